@@ -142,6 +142,9 @@ def run(ctx):
     from rules import c05
     c05.stored_length_encoding(ctx, P)
     c05.image_header_length_formula(ctx, P)
+    # the hashed subpacket area is framed with announced lengths: a subpacket that announces another length than it writes is
+    # hashed (and serialised) mis-framed - R-len restricted to the signature types (shared with C05)
+    c05.r_len(ctx, P, only=r'packet::signature::|SignatureConfig|Notation|KeyFlags|Features|RevocationKey', floors=(70, 3))
     # the canonicalised document that enters the digest (shared with C14)
     from rules import c14
     c14.hasher_rules(ctx, P)
